@@ -93,6 +93,9 @@ STMT_CASES = [
     # constant-only always block never runs (empty implicit event list): r keeps its declared initial value
     ("reg [7:0] r = 8'd4; always @(*) begin r <= 8'd0; r[1:0] <= 2'd1; end assign y = r;", dict(), dict(y=4), "const-only block never triggers"),
     ("reg [7:0] r; assign y = r; always @(*) begin r <= 8'd0; r[0] <= e; end", dict(e=1), dict(y=1), "textual order irrelevant"),
+    # ... unless it reads a variable that an initial block assigns at time 0 (x -> 0 is an event): Migen's dummy event
+    ("reg ds; initial ds <= 1'd0; reg dd; reg [7:0] r = 8'd4; always @(*) begin r <= 8'd0; r[1:0] <= 2'd1; dd <= ds; end assign y = r;",
+     dict(), dict(y=1), "dummy event makes the const-only block run once"),
 ]
 
 SEQ_TEXT = _HDR + """
